@@ -174,7 +174,15 @@ def parse_verus(res, fns, gen_lines=None):
                 name = 'pre(%s)' % re.sub(r'\s+', '', txt)[:60]
         else:
             name = kind
-        failures.append(dict(fn=owner['label'], props=owner['props'], kind=kind, obligation=name, message=msg,
+        only_props = None
+        if kind == 'post' and clause and gen_lines is not None:
+            # a postcondition clause may be tagged `// [only: C16]`: it then counts for those properties only
+            k = owner['contract'][0] + clause - 2
+            if 0 <= k < len(gen_lines):
+                mm = re.search(r'//\s*\[only:\s*([A-Z0-9, ]+)\]', gen_lines[k])
+                if mm:
+                    only_props = [x.strip() for x in mm.group(1).split(',') if x.strip()]
+        failures.append(dict(fn=owner['label'], props=owner['props'], only_props=only_props, kind=kind, obligation=name, message=msg,
                              gen_line=prim[0]['line_start'] if prim else None,
                              src=owner['file'] + ':' + str(owner['src_line']),
                              rendered=d.get('rendered', '')))
